@@ -43,9 +43,14 @@ func le32(x *big.Int) []byte {
 // Int256 draws a 256-bit integer from a boundary-heavy catalogue together with
 // the name of the class it came from.  The value is in [0, 2^256).
 func Int256(t *rapid.T, label string) (*big.Int, string) {
-	cls := rapid.IntRange(0, 15).Draw(t, label+"_cls")
+	cls := rapid.IntRange(0, 17).Draw(t, label+"_cls")
 	one := big.NewInt(1)
 	switch cls {
+	case 16: // byte-wise comparison probe against L (or a small multiple of it)
+		k := rapid.SampledFrom([]int64{1, 1, 1, 2, 8}).Draw(t, label+"_bk")
+		return ref.FromLE(BytewiseProbe(t, label, new(big.Int).Mul(ref.L, big.NewInt(k)))), "bytewise-kL"
+	case 17: // ... against p = 2^255-19
+		return ref.FromLE(BytewiseProbe(t, label, ref.P)), "bytewise-p"
 	case 0: // tiny
 		return big.NewInt(int64(rapid.SampledFrom([]int{0, 1, 2, 3, 7, 8, 9, 15, 16, 17, 255, 256}).Draw(t, label+"_tiny"))), "tiny"
 	case 1: // k*L + e
@@ -144,6 +149,47 @@ func Int256(t *rapid.T, label string) (*big.Int, string) {
 	default: // uniform 256-bit
 		return new(big.Int).SetBytes(UniformBytes(t, 32, label)), "uniform"
 	}
+}
+
+// BytewiseProbe draws a 32-byte little-endian string that agrees with the
+// bytes of bound above a drawn index i, differs from it at index i (one less,
+// one more, any smaller, any larger value - whatever exists), and is filled
+// below i with 0x00, 0xff, the bound's own bytes or uniform bytes.  A
+// comparison with the bound that goes wrong at one byte position (a loop that
+// stops early or skips an index, a lexicographic test with one inequality the
+// wrong way round) decides such a string wrongly; a uniform sampler and a
+// "bound +- e" catalogue only ever exercise the lowest byte.  With i = 32 the
+// string is the bound itself.  The value may lie on either side of the bound.
+func BytewiseProbe(t *rapid.T, label string, bound *big.Int) []byte {
+	b := le32(bound)
+	i := rapid.IntRange(0, 32).Draw(t, label+"_bwi")
+	if i == 32 {
+		return b
+	}
+	cur := int(b[i])
+	var opts []int
+	if cur > 0 {
+		opts = append(opts, cur-1, rapid.IntRange(0, cur-1).Draw(t, label+"_bwlo"))
+	}
+	if cur < 255 {
+		opts = append(opts, cur+1, rapid.IntRange(cur+1, 255).Draw(t, label+"_bwhi"))
+	}
+	b[i] = byte(opts[rapid.IntRange(0, len(opts)-1).Draw(t, label+"_bwo")])
+	fill := rapid.IntRange(0, 3).Draw(t, label+"_bwf")
+	for j := 0; j < i; j++ {
+		switch fill {
+		case 0:
+			b[j] = 0
+		case 1:
+			b[j] = 0xff
+		case 3:
+			b[j] = rapid.Byte().Draw(t, label+"_bwr")
+		}
+	}
+	if i > 0 && rapid.Bool().Draw(t, label+"_bw0") { // the lowest byte on its own: parity / the 0xed..0xff window
+		b[0] = rapid.Byte().Draw(t, label+"_bwb0")
+	}
+	return b
 }
 
 // Scalar255 draws 32 bytes whose value is < 2^255 (the Scalar invariant),
